@@ -78,4 +78,5 @@ func init() {
 	register("C08", "other", checkC08)
 	register("C09", "other", checkC09)
 	register("C07", "other", checkC07)
+	register("C10", "other", checkC10)
 }
